@@ -386,6 +386,33 @@ async fn pubsub_fidelity(pki: &Pki, variant: usize) -> Outcome {
     Ok(())
 }
 
+/// a publisher that is duplicated while items are still queued in its batch: every accepted item is yielded exactly once
+async fn pubsub_duplicate(pki: &Pki) -> Outcome {
+    let (addr, _h) = step!("C03", "server start", start_server(pki, 0));
+    let cs = step!("C03", "connect", lib_connect(pki, addr, 0).await);
+    let cp = step!("C03", "connect", lib_connect(pki, addr, 0).await);
+    let topic = "/fidelity/duplicate";
+    let mut sub = step!("C03", "open subscriber", cs.subscriber(topic).with_decoder(StringCodec).open().await);
+    tokio::time::sleep(Duration::from_millis(300)).await;
+    let mut a = step!("C03", "open publisher", cp.publisher(topic).with_encoder(StringCodec).with_batching(BatchConfig::new(10, Duration::from_secs(3600))).open().await);
+    for i in 0..3 {
+        step!("C03", "publish", a.feed(format!("a{i}")).await);
+    }
+    let mut b = step!("C03", "duplicate", a.duplicate().await);
+    step!("C03", "publish", b.feed("b0".to_string()).await);
+    step!("C03", "finish", a.finish().await);
+    step!("C03", "finish", b.finish().await);
+    let mut got: Vec<String> = Vec::new();
+    while let Ok(Some(Ok(m))) = tokio::time::timeout(Duration::from_millis(1500), sub.next()).await {
+        got.push(m);
+    }
+    got.sort();
+    if got != vec!["a0".to_string(), "a1".into(), "a2".into(), "b0".into()] {
+        return fail("C03", format!("a publisher accepted a0,a1,a2, was duplicated, the duplicate accepted b0, both finished: the subscriber yielded {got:?} (sorted)"));
+    }
+    Ok(())
+}
+
 // ------------------------------------------------------------------------------------------------ C04: request/reply matching
 async fn reqrep_matching(pki: &Pki) -> Outcome {
     let (addr, _h) = step!("C04", "server start", start_server(pki, 0));
@@ -435,6 +462,19 @@ async fn reqrep_matching(pki: &Pki) -> Outcome {
             Err(e) => return fail("C04", format!("request {body:?} failed although the replier answers every request: {e:?}")),
         }
     }
+    // the same on ONE stream with nothing else outstanding: the request times out, the next one is sent before the late reply lands
+    let mut qs = step!("C04", "open requestor", step!("C04", "timeout", open(&c1, Duration::from_millis(450))).open().await);
+    match qs.request("slow-one".to_string()).await {
+        Err(_) => {}
+        Ok(rep) => return fail("C04", format!("a request with a 450 ms timeout to a replier that takes 700 ms returned Ok({rep:?})")),
+    }
+    match tokio::time::timeout(STEP, qs.request("fast-two".to_string())).await {
+        Err(_) => return fail("C04", "a request sent right after a timed-out one never returned".into()),
+        Ok(Ok(rep)) if rep == "re:fast-two" => {}
+        Ok(Ok(rep)) => return fail("C04", format!("request \"fast-two\", sent on the same stream right after \"slow-one\" had timed out, returned Ok({rep:?})")),
+        Ok(Err(_)) => {} // the serial replier may still be busy with the slow one: a time-out is not a wrong reply
+    }
+    drop(qs);
     // a request that times out; its late reply must not become the answer of a later request, on this stream or on a new one
     let mut qa = step!("C04", "open requestor", step!("C04", "timeout", open(&c1, Duration::from_millis(250))).open().await);
     match qa.request("slow-A".to_string()).await {
@@ -474,12 +514,12 @@ async fn stalled_topic(pki: &Pki) -> Outcome {
     tokio::time::sleep(Duration::from_millis(1500)).await;
     // many more registrations on the stalled topic, from several connections (their own time-outs are tolerated)
     let mut fillers = Vec::new();
-    for _ in 0..3 {
+    for _ in 0..7 {
         fillers.push(step!("C17", "connect", lib_connect(pki, addr, 0).await));
     }
     let mut pending = Vec::new();
-    for i in 0..210 {
-        let c = fillers[i % 3].clone();
+    for i in 0..430 {
+        let c = fillers[i % 7].clone();
         pending.push(tokio::spawn(async move {
             let _ = tokio::time::timeout(Duration::from_secs(8), c.subscriber("/stall/blocked").with_decoder(StringCodec).open()).await;
         }));
@@ -650,10 +690,11 @@ async fn run_case(pki: &Pki, i: usize) -> Outcome {
         10 => reqrep_matching(pki).await,
         11 => stalled_topic(pki).await,
         12 => survive_outages(pki).await,
-        _ => exhausted_budget(pki).await,
+        13 => exhausted_budget(pki).await,
+        _ => pubsub_duplicate(pki).await,
     }
 }
-const NAMES: [&str; 14] = [
+const NAMES: [&str; 15] = [
     "registration rules on raw streams (invalid names, wrong first frames, role mismatch)",
     "isolation of five similar topic names",
     "pub/sub fidelity: no batching",
@@ -665,11 +706,12 @@ const NAMES: [&str; 14] = [
     "pub/sub fidelity: one partial batch flushed by finish()",
     "pub/sub fidelity: batches of 1, gzip, empty last payload",
     "request/reply matching: 24 concurrent requests on two streams, a timed-out request followed by a new stream",
-    "a stalled topic with 210 queued registrations must not block another topic",
+    "a stalled topic with 430 queued registrations over 7 connections must not block another topic",
     "two abrupt outages of 1.5 s: publisher, subscriber, requestor, its clone and replier all work again without being reopened",
     "the server never comes back: publisher and subscriber report too-many-retries within their budget",
+    "pub/sub fidelity: a batching publisher duplicated with items still queued",
 ];
-const PROPS: [&str; 14] = ["C07 C11", "C07", "C03", "C03", "C03", "C03", "C03", "C03", "C03", "C03", "C04", "C17", "C12 C04", "C12"];
+const PROPS: [&str; 15] = ["C07 C11", "C07", "C03", "C03", "C03", "C03", "C03", "C03", "C03", "C03", "C04", "C17", "C12 C04", "C12", "C03"];
 
 fn main() {
     let args: Vec<String> = std::env::args().skip(1).collect();
